@@ -7,6 +7,13 @@ package rest
 
 import (
 	"context"
+	"crypto/ecdsa"
+	"crypto/elliptic"
+	"crypto/rand"
+	"crypto/tls"
+	"crypto/x509"
+	"crypto/x509/pkix"
+	"encoding/pem"
 	"fmt"
 	"math/big"
 	"strings"
@@ -137,5 +144,151 @@ func TestVerif_C09_Overlap(t *testing.T) {
 				t.Fatalf("C09 VIOLATION key=c09-%s-accepted-overlapped: verification #%d of a %s certificate SUCCEEDED while other handshakes were in flight on the same TLS configuration; schedule=%v", strings.TrimRight(c.class, "012"), i, c.class, sched)
 			}
 		}
+	})
+}
+
+// ---- histories on one TLS configuration -------------------------------------------------------
+//
+// The verdict on a presented certificate depends on the chain state at that moment only, not on
+// what the same gateway process verified earlier: generated histories of register / revoke /
+// present on ONE TLS configuration, including certificates that are allowed to sign (CA:TRUE, the
+// openssl default) and forged ones signed by another - valid or revoked - certificate of the
+// same account.
+
+const c09HistoryRule = "history on one TLS configuration in which a certificate is presented after >=1 earlier successful verification and >=1 revocation, or a forged certificate signed by another certificate of the same account is presented"
+
+type c09Reg struct {
+	spec    c09Spec
+	cert    *c09Cert
+	revoked bool
+}
+
+func c09MakeCA(s c09Spec, isCA bool) *c09Cert {
+	if !isCA {
+		return c09Make(s)
+	}
+	// like c09Make, but the certificate may sign others
+	priv, err := ecdsa.GenerateKey(elliptic.P256(), rand.Reader)
+	if err != nil {
+		panic(err)
+	}
+	tmpl := &x509.Certificate{
+		SerialNumber:          s.serial,
+		Subject:               pkix.Name{CommonName: s.cn},
+		NotBefore:             s.notBefore,
+		NotAfter:              s.notAfter,
+		KeyUsage:              x509.KeyUsageCertSign | x509.KeyUsageDigitalSignature,
+		ExtKeyUsage:           []x509.ExtKeyUsage{x509.ExtKeyUsageClientAuth},
+		BasicConstraintsValid: true,
+		IsCA:                  true,
+	}
+	der, err := x509.CreateCertificate(rand.Reader, tmpl, tmpl, priv.Public(), priv)
+	if err != nil {
+		panic(err)
+	}
+	pubDer, _ := x509.MarshalPKIXPublicKey(priv.Public())
+	keyDer, _ := x509.MarshalPKCS8PrivateKey(priv)
+	c := &c09Cert{der: der, priv: priv}
+	c.pem = pem.EncodeToMemory(&pem.Block{Type: ctypes.PemBlkTypeCertificate, Bytes: der})
+	c.pub = pem.EncodeToMemory(&pem.Block{Type: ctypes.PemBlkTypeECPublicKey, Bytes: pubDer})
+	kp := pem.EncodeToMemory(&pem.Block{Type: ctypes.PemBlkTypeECPrivateKey, Bytes: keyDer})
+	c.tls, err = tls.X509KeyPair(c.pem, kp)
+	if err != nil {
+		panic(err)
+	}
+	return c
+}
+
+func TestVerif_C09_History(t *testing.T) {
+	vsInit("C09", c09HistoryRule)
+	defer vsFlush()
+	rapid.Check(t, func(t *rapid.T) {
+		chain := c09NewChain()
+		cfg, err := gwutils.NewServerTLSConfig(context.Background(), nil, chain)
+		if err != nil {
+			t.Fatalf("NewServerTLSConfig: %v", err)
+		}
+		now := time.Now()
+		day := 24 * time.Hour
+		owner := c09Tenants[0]
+		regs := map[int64]*c09Reg{} // serial -> registration of tenant 0
+		var hist []string
+		accepted, revocations, interesting := 0, 0, false
+		serials := []int64{21, 22, 23}
+		steps := rapid.IntRange(3, 10).Draw(t, "steps")
+		for i := 0; i < steps; i++ {
+			s := rapid.SampledFrom(serials).Draw(t, "serial")
+			r := regs[s]
+			switch rapid.IntRange(0, 5).Draw(t, "op") {
+			case 0, 1: // register
+				if r != nil {
+					continue
+				}
+				spec := c09Spec{cn: owner.String(), serial: big.NewInt(s), notBefore: now.Add(-30 * day), notAfter: now.Add(300 * day), clientAuth: true}
+				isCA := rapid.Bool().Draw(t, "mayIssue")
+				c := c09MakeCA(spec, isCA)
+				if err := chain.k.CreateCertificate(chain.ctx, owner, c.pem, c.pub); err != nil {
+					t.Fatalf("register: %v", err)
+				}
+				regs[s] = &c09Reg{spec: spec, cert: c}
+				hist = append(hist, fmt.Sprintf("register(%d,mayIssue=%v)", s, isCA))
+			case 2: // revoke
+				if r == nil || r.revoked {
+					continue
+				}
+				if err := chain.k.RevokeCertificate(chain.ctx, ctypes.CertID{Owner: owner, Serial: *big.NewInt(s)}); err != nil {
+					t.Fatalf("revoke: %v", err)
+				}
+				r.revoked = true
+				revocations++
+				hist = append(hist, fmt.Sprintf("revoke(%d)", s))
+			default: // present something that claims (owner, serial s)
+				kind := rapid.SampledFrom([]string{"genuine", "genuine", "self-made", "issued-by-sibling"}).Draw(t, "present")
+				var der []byte
+				expect := "reject"
+				switch kind {
+				case "genuine":
+					if r == nil {
+						continue
+					}
+					der = r.cert.der
+					if !r.revoked {
+						expect = "accept"
+					}
+				case "self-made":
+					spec := c09Spec{cn: owner.String(), serial: big.NewInt(s), notBefore: now.Add(-30 * day), notAfter: now.Add(300 * day), clientAuth: true}
+					der = c09Make(spec).der
+				default:
+					// signed by the key of ANOTHER registration of the same account (valid or revoked)
+					var other *c09Reg
+					for _, os := range serials {
+						if os != s && regs[os] != nil {
+							other = regs[os]
+						}
+					}
+					if other == nil {
+						continue
+					}
+					spec := c09Spec{cn: owner.String(), serial: big.NewInt(s), notBefore: now.Add(-30 * day), notAfter: now.Add(300 * day), clientAuth: true, signer: other.cert}
+					der = c09Make(spec).der
+					interesting = true
+				}
+				if accepted > 0 && revocations > 0 {
+					interesting = true
+				}
+				verr := cfg.VerifyPeerCertificate([][]byte{der}, nil)
+				hist = append(hist, fmt.Sprintf("present(%d,%s)->%v", s, kind, verr == nil))
+				if expect == "accept" && verr != nil {
+					t.Fatalf("C09 VIOLATION key=c09-genuine-rejected: the account's registered, unrevoked certificate %d was rejected: %v\n-- history: %v", s, verr, hist)
+				}
+				if expect == "reject" && verr == nil {
+					t.Fatalf("C09 VIOLATION key=c09-%s-accepted-after-history: a %s certificate claiming serial %d was ACCEPTED\n-- history: %v", kind, kind, s, hist)
+				}
+				if verr == nil {
+					accepted++
+				}
+			}
+		}
+		vsCase("history|"+strings.Join(hist, ";"), interesting, "history")
 	})
 }
